@@ -68,6 +68,26 @@ func runC02(c *Ctx, w *World, r *Report) {
 				rd = &refs[n][i]
 			}
 		}
+		// IndexSelect32R64 may hand the select index to IndexSelect32 (whose builder rule stands for it) instead of
+		// repeating the scan: every first result is IndexSelect32(words) of the same words
+		if n == "bitmap.IndexSelect32R64" && rd == nil {
+			deleg := len(returnsOf(fn)) > 0
+			for _, ret := range returnsOf(fn) {
+				for _, src := range resolvePhi(ret.Results[0]) {
+					call, ok := src.(*ssa.Call)
+					if !ok || call.Common().StaticCallee() != fns["bitmap.IndexSelect32"] || len(call.Common().Args) != 1 || call.Common().Args[0] != ssa.Value(fn.Params[0]) {
+						deleg = false
+					}
+				}
+			}
+			if deleg {
+				if j, ok := builderMask["bitmap.IndexSelect32"]; ok {
+					builderMask[n] = j
+				}
+				r.OK("R-BUILDER", n, w.Pos(fn.Pos()), "first result is IndexSelect32(words) of the same words")
+				continue
+			}
+		}
 		if rd == nil {
 			r.Bad("R-BUILDER", n, w.Pos(fn.Pos()), "no bit test on words")
 			continue
